@@ -665,6 +665,9 @@ func selftest(defs map[string]*checkDef, repo string, only []string) {
 					break
 				}
 				cb, _ := json.Marshal(r.Counters)
+				for i := range r.Violations {
+					r.Violations[i].Path = filepath.Base(r.Violations[i].Path) // the directory is per run
+				}
 				vb, _ := json.Marshal(r.Violations)
 				sig := fmt.Sprintf("scen=%d exec=%d nontriv=%d hist=%v fps=%v counters=%s viol=%s known=%v", r.Scenarios, r.Executions, r.Nontrivial, r.DistinctHist, r.DistinctFPs, cb, vb, r.Known)
 				if run == 0 {
